@@ -299,6 +299,11 @@ func (s *Server) manifestPut(repoStr, arg string) http.HandlerFunc {
 				s.log.Debug("failed to parse image manifest", "repo", repoStr, "arg", arg, "mediaType", mt, "err", err)
 				return
 			}
+			if m.MediaType != "" && m.MediaType != mt {
+				w.WriteHeader(http.StatusBadRequest)
+				_ = types.ErrRespJSON(w, types.ErrInfoManifestInvalid("media type does not match manifest content: "+mt))
+				return
+			}
 			// validate image blobs exist
 			eList := s.manifestVerifyImage(repo, m)
 			if eList != nil {
@@ -327,6 +332,11 @@ func (s *Server) manifestPut(repoStr, arg string) http.HandlerFunc {
 				w.WriteHeader(http.StatusBadRequest)
 				_ = types.ErrRespJSON(w, types.ErrInfoManifestInvalid("manifest could not be parsed"))
 				s.log.Debug("failed to parse image manifest", "repo", repoStr, "arg", arg, "mediaType", mt, "err", err)
+				return
+			}
+			if m.MediaType != "" && m.MediaType != mt {
+				w.WriteHeader(http.StatusBadRequest)
+				_ = types.ErrRespJSON(w, types.ErrInfoManifestInvalid("media type does not match manifest content: "+mt))
 				return
 			}
 			addOpts = append(addOpts, types.IndexWithChildren(m.Manifests))
